@@ -826,7 +826,7 @@ def is_guard_value_type(ty):
     return GUARD_RX.search(ty) is not None
 
 
-def guard_liveness(body, extra_guard_types=()):
+def guard_liveness(body, extra_guard_types=(), removed_edges=frozenset()):
     """Forward must-dataflow of live guard-owning locals.
     Returns (IN, acquisitions) where IN[b] = frozenset of (local) definitely holding a guard at
     entry of block b; the state just before the terminator of b is IN[b] modified by b's
@@ -888,7 +888,7 @@ def guard_liveness(body, extra_guard_types=()):
         PRE[bi] = frozenset(pre)
         OUT[bi] = out
         for s in body.succ(bi):
-            if s not in IN:
+            if s not in IN or (bi, s) in removed_edges:
                 continue
             new = out if IN[s] is TOP else (IN[s] & out)
             if IN[s] is TOP or new != IN[s]:
